@@ -29,7 +29,7 @@ extra = ("\nIMPORTANT ADDITIONAL CONSTRAINT: earlier contributors have already d
          + "".join("  - %s\n" % t for t in prev)
          + "Aim for a clause of the property statement that these do not touch, and for a change that only manifests after a specific "
            "sequence of operations, in a rarely used configuration, or through the interaction of two code sites. "
-           "You have about 20 minutes: pick the idea quickly, and run the full test suite only once, on your final change.\n\n")
+           "You have about 15 minutes in total: pick the idea within the first 3 minutes, write the demo next, and run the full test suite only once, on your final change (it takes 2-6 minutes).\n\n")
 keys = [k for k in prop if k not in ("id", "title", "statement", "added_in_round", "source")]
 body = "ID: %s\nTitle: %s\n\nStatement: %s\n\n" % (prop["id"], prop["title"], prop["statement"])
 for k in keys:
